@@ -67,6 +67,40 @@ def gen_points(rng, n):
     return pts, mode
 
 
+SCALAR_TYPES = ['pyint', 'npint', 'pyfloat', 'npfloat', 'npcomplex', 'mixed-int-float', 'mixed-int-complex',
+                'mixed-npint-pyint']
+
+
+def cast_pts(pts, ty):
+    """the same control points as Python / numpy scalars of the given type(s).  The scalar TYPE
+    must not matter: an all-integer control polygon is the same curve as its float copy."""
+    import numpy as np
+    if ty in (None, 'complex'):
+        return list(pts)
+    re = [p.real for p in pts]
+    if ty == 'pyint': return [int(x) for x in re]
+    if ty == 'npint': return [np.int64(int(x)) for x in re]
+    if ty == 'pyfloat': return [float(x) for x in re]
+    if ty == 'npfloat': return [np.float64(x) for x in re]
+    if ty == 'npcomplex': return [np.complex128(p) for p in pts]
+    if ty == 'mixed-int-float': return [int(x) for x in re[:-1]] + [float(re[-1])]
+    if ty == 'mixed-int-complex': return [complex(pts[0])] + [int(x) for x in re[1:]]
+    if ty == 'mixed-npint-pyint': return [np.int64(int(x)) if i % 2 else int(x) for i, x in enumerate(re)]
+    raise ValueError(ty)
+
+
+def gen_int_points(rng, n, uniform=False):
+    """integer control points on the real axis, strictly increasing (the curve does not retrace
+    itself); uniform = equally spaced (the curve is then linearly parameterised)"""
+    x = rng.randint(-20, 20)
+    d = rng.choice([1, 3, 5, 7, 9])
+    out = []
+    for _ in range(n):
+        out.append(complex(x, 0))
+        x += d if uniform else rng.randint(1, 9)
+    return out
+
+
 DYADICS = [0.5, 0.25, 0.75, 0.125, 0.375, 0.625, 0.875, 2.0 ** -10, 1 - 2.0 ** -10]
 
 
@@ -166,10 +200,10 @@ BEZ_OBS = {1: 'reversed().bpoints() vs reversed control points', 2: 'split(t)[0]
 US = [0.0, 1.0, 0.5, 0.25, 0.8125]
 
 
-def observe_bez(pts, t0, t1, ts):
+def observe_bez(pts, t0, t1, ts, sty=None):
     from svgpathtools import Line, QuadraticBezier, CubicBezier
     cls = {2: Line, 3: QuadraticBezier, 4: CubicBezier}[len(pts)]
-    seg = cls(*pts)
+    seg = cls(*cast_pts(pts, sty))
     o = {}
     rev = seg.reversed()
     if type(rev) is not cls:
@@ -178,6 +212,12 @@ def observe_bez(pts, t0, t1, ts):
     a, b = seg.split(ts)
     o['sl'] = [complex(z) for z in a.bpoints()]
     o['sr'] = [complex(z) for z in b.bpoints()]
+    if len(pts) > 2:
+        # bezier.split_bezier called directly on the (typed) control points must give the same polygons
+        from svgpathtools.bezier import split_bezier
+        l2, r2 = split_bezier(cast_pts(pts, sty), ts)
+        if [complex(z) for z in l2] != o['sl'] or [complex(z) for z in r2] != o['sr']:
+            o['sl'], o['sr'] = [complex(z) for z in l2], [complex(z) for z in r2]
     rec = []
     orig = cls.radialrange
 
@@ -223,11 +263,12 @@ def bez_term(pts, t0, t1, ts, o):
         coq_list([qc(u) for u in US]))
 
 
-def bez_json(pts, t0, t1, ts):
+def bez_json(pts, t0, t1, ts, sty=None):
     names = {2: 'Line', 3: 'QuadraticBezier', 4: 'CubicBezier'}
     return {'points': [common.chex(p) for p in pts], 't0': common.fhex(t0), 't1': common.fhex(t1),
-            'ts': common.fhex(ts),
-            'python': '%s(%s).cropped(%r, %r)' % (names[len(pts)], ', '.join(repr(p) for p in pts), t0, t1)}
+            'ts': common.fhex(ts), 'scalar_type': sty or 'complex',
+            'python': '%s(%s).cropped(%r, %r) / .split(%r)' % (
+                names[len(pts)], ', '.join(repr(p) for p in cast_pts(pts, sty)), t0, t1, ts)}
 
 
 def run_bez(rep, rng, n, tmp, replay_case=None):
@@ -247,6 +288,33 @@ def run_bez(rep, rng, n, tmp, replay_case=None):
                 pts[0] = pts[0] + complex(1, -2)
             t0, t1 = gen_t01(rng)
             todo.append((pts, t0, t1, gen_t(rng), mode))
+        # the scalar TYPE of the control points must not matter: Python ints, numpy int64 /
+        # float64 / complex128 scalars, mixtures (same exact-rational expectations)
+        for sty, cp in (('pyint', [0, 3, 10]), ('pyint', [0, 1, 5, 7]), ('pyint', [0, 4]), ('npint', [0, 3, 10]),
+                        ('mixed-npint-pyint', [0, 1, 5, 7])):
+            todo.append(([complex(x) for x in cp], 0.0, 0.75, 0.5, 'typed-' + sty, sty))
+        for i in range(max(16, n // 5)):
+            k = rng.choice([2, 3, 3, 4, 4])
+            sty = SCALAR_TYPES[i % len(SCALAR_TYPES)]
+            if sty == 'npcomplex':
+                pts, _ = gen_points(rng, k)
+                if len(set(pts)) == 1:
+                    pts[0] = pts[0] + complex(1, -2)
+                t0, t1 = gen_t01(rng)
+            else:
+                # straight-line Beziers with NON-uniform speed make the radialrange relocation of
+                # crop_bezier inaccurate (~1e-7, key crop-bezier-relocation-inaccurate): interior crops
+                # (the oracle branch) only on equally spaced control points, else t0 = 0 or t1 = 1
+                uni = (i // len(SCALAR_TYPES)) % 2 == 0
+                pts = gen_int_points(rng, k, uniform=uni)
+                if sty == 'mixed-int-complex':
+                    pts[0] = complex(pts[0].real, rng.randint(1, 9))
+                    uni = False
+                t0, t1 = gen_t01(rng)
+                if not uni and 0.0 < t0 and t1 < 1.0:
+                    if rng.random() < 0.5: t0 = 0.0
+                    else: t1 = 1.0
+            todo.append((pts, t0, t1, gen_t(rng), 'typed-' + sty, sty))
         for i in range(max(6, n // 12)):
             pts, ta, tb = loop_cubic(rng)
             r = rng.random()
@@ -260,10 +328,12 @@ def run_bez(rep, rng, n, tmp, replay_case=None):
     cases, meta, modes = [], [], {}
     nontriv = set()
     found = {}
-    for pts, t0, t1, ts, mode in todo:
+    for item in todo:
+        pts, t0, t1, ts, mode = item[:5]
+        sty = item[5] if len(item) > 5 else None
         modes[mode] = modes.get(mode, 0) + 1
         try:
-            o = observe_bez(pts, t0, t1, ts)
+            o = observe_bez(pts, t0, t1, ts, sty)
         except Exception as ex:
             adj = getattr(ex, 't1_adj', None)
             if adj is not None:
@@ -273,23 +343,28 @@ def run_bez(rep, rng, n, tmp, replay_case=None):
             else:
                 key = 'bezier-op-raises'
                 what = 'reversed/split/cropped raised %s on a Bezier segment' % type(ex).__name__
-            found.setdefault(key, [0, what, dict(bez_json(pts, t0, t1, ts), kind='exception', error=repr(ex),
+            found.setdefault(key, [0, what, dict(bez_json(pts, t0, t1, ts, sty), kind='exception', error=repr(ex),
                                                  t1_adj=adj)])[0] += 1
             continue
         cases.append(bez_term(pts, t0, t1, ts, o))
-        meta.append((pts, t0, t1, ts, mode, o))
+        meta.append((pts, t0, t1, ts, mode, o, sty))
         if 0.0 < t0 and t1 < 1.0:
             nontriv.add((tuple(pts), t0, t1))
         if o['impl_err'] > 1e-9 * o['size']:
             exp_adj = (t1 - t0) / (1 - t0) if t0 != 1 else 0
             wrong_branch = o['used'] and abs(o['adj'] - exp_adj) > 1e-6
-            key = 'crop-bezier-relocation-wrong-branch' if wrong_branch else 'bezier-crop-split-reversed-point-mismatch'
+            inaccurate = o['used'] and not wrong_branch and abs(o['adj'] - exp_adj) > 1e-10
+            key = ('crop-bezier-relocation-wrong-branch' if wrong_branch else
+                   'crop-bezier-relocation-inaccurate' if inaccurate else 'bezier-crop-split-reversed-point-mismatch')
             what = ('crop_bezier relocated t1 with radialrange onto ANOTHER branch of a self-intersecting curve '
                     '(t1_adj=%r, expected %r): cropped(t0,t1) is not the piece from t0 to t1' % (o['adj'], exp_adj)
                     if wrong_branch else
+                    'crop_bezier: the radialrange relocation of t1 is inaccurate (t1_adj=%r, exact %r; straight-line Bezier '
+                    'with non-uniform speed): cropped(t0,t1) ends %.3g away from point(t1)' % (o['adj'], exp_adj, o['impl_err'])
+                    if inaccurate else
                     'cropped/split/reversed point(u) differs from the documented parameter map by %.3g > 1e-9*size'
                     % o['impl_err'])
-            found.setdefault(key, [0, what, dict(bez_json(pts, t0, t1, ts), kind='property',
+            found.setdefault(key, [0, what, dict(bez_json(pts, t0, t1, ts, sty), kind='property',
                                                  t1_adj=o['adj'], expected_t1_adj=exp_adj, error=o['impl_err'])])[0] += 1
     fails, errors = common.run_cases(tmp, '', 'casety', OKDEF_BEZ, cases,
                                      shard=max(8, (len(cases) + 15) // 16), prefix='bez')
@@ -297,16 +372,20 @@ def run_bez(rep, rng, n, tmp, replay_case=None):
         rep.violation('correspondence case file (Bezier) failed to evaluate', {'kind': 'cases', 'error': e},
                       found_input=False, key='cases-error')
     for idx, code in fails:
-        pts, t0, t1, ts, mode, o = meta[idx]
+        pts, t0, t1, ts, mode, o, sty = meta[idx]
         exp_adj = (t1 - t0) / (1 - t0) if t0 != 1 else 0
         if code in (6, 9) and o['used'] and abs(o['adj'] - exp_adj) > 1e-6:
             key = 'crop-bezier-relocation-wrong-branch'
             what = ('crop_bezier relocated t1 with radialrange onto ANOTHER branch of a self-intersecting curve '
                     '(t1_adj=%r, expected %r): cropped(t0,t1) is not the piece from t0 to t1' % (o['adj'], exp_adj))
+        elif code == 6 and o['used'] and abs(o['adj'] - exp_adj) > 1e-10:
+            key = 'crop-bezier-relocation-inaccurate'
+            what = ('crop_bezier: the radialrange relocation of t1 is inaccurate (t1_adj=%r, exact %r): '
+                    'cropped(t0,t1).point(u) is off by more than 1e-9*size' % (o['adj'], exp_adj))
         else:
             key = 'bez-corr-%d' % code
-            what = 'C09 (Bezier): %s fails' % BEZ_OBS.get(code, code)
-        found.setdefault(key, [0, what, dict(bez_json(pts, t0, t1, ts), kind='correspondence',
+            what = 'C09 (Bezier, control points as %s scalars): %s fails' % (sty or 'complex', BEZ_OBS.get(code, code))
+        found.setdefault(key, [0, what, dict(bez_json(pts, t0, t1, ts, sty), kind='correspondence',
                                              observation=BEZ_OBS.get(code, str(code)), t1_adj=o['adj'],
                                              expected_t1_adj=exp_adj, cropped=[str(z) for z in o['crop']])])[0] += 1
     for key, (cnt, what, rp) in sorted(found.items()):
@@ -716,7 +795,35 @@ def gen_path(rng):
     """(path, description, flags)"""
     from svgpathtools import Path, Line
     fam = rng.choice(['open', 'open', 'closed', 'closed', 'closed', 'lines', 'dup-equal', 'dup-same', 'single',
-                      'discontinuous', 'grid'])
+                      'discontinuous', 'grid', 'typed-real', 'typed-npcomplex'])
+    if fam == 'typed-real':
+        # a path along the real axis whose control points are Python ints / numpy int64 / float64
+        # scalars or mixtures (strictly increasing: no retracing); the scalar type must not matter
+        from svgpathtools import QuadraticBezier, CubicBezier
+        sty = rng.choice(['pyint', 'pyint', 'npint', 'npfloat', 'pyfloat', 'mixed-npint-pyint', 'mixed-int-float'])
+        nseg = rng.randint(1, 4)
+        segs, x = [], complex(rng.randint(-9, 9), 0)
+        for _ in range(nseg):
+            k = rng.choice([2, 3, 4])
+            cp = [x]
+            d = rng.choice([1, 3, 5, 7, 9])          # equally spaced: see gen_int_points
+            for _ in range(k - 1):
+                cp.append(cp[-1] + d)
+            x = cp[-1]
+            segs.append({2: Line, 3: QuadraticBezier, 4: CubicBezier}[k](*cast_pts(cp, sty)))
+        # joints must compare equal whatever the scalar types are (3 == 3.0 == np.int64(3))
+        return Path(*segs), fam + '-' + sty
+    if fam == 'typed-npcomplex':
+        import numpy as np
+        nseg = rng.randint(2, 4)
+        z = [rnd_c(rng, 50) for _ in range(nseg + 1)]
+        if rng.random() < 0.5:
+            z[-1] = z[0]
+        segs = []
+        for i in range(nseg):
+            s0 = make_seg(rng, z[i], z[i + 1], rng.choice('LQC'))
+            segs.append(type(s0)(*[np.complex128(q) for q in s0.bpoints()]))
+        return Path(*segs), fam
     kinds = 'LLQCA' if fam not in ('lines', 'grid') else 'L'
     if fam == 'single':
         n = 1
@@ -1323,7 +1430,8 @@ def run(rep, tier, seed, replay=None):
             cx = lambda p: complex(float.fromhex(p[0]), float.fromhex(p[1]))
             if 'points' in r:
                 rb = ([cx(p) for p in r['points']], float.fromhex(r['t0']), float.fromhex(r['t1']),
-                      float.fromhex(r['ts']), 'replay')
+                      float.fromhex(r['ts']), 'replay',
+                      None if r.get('scalar_type', 'complex') == 'complex' else r.get('scalar_type'))
             elif 'radius' in r:
                 ra = ((cx(r['start']), cx(r['radius']), float.fromhex(r['rotation']), r['large_arc'], r['sweep'],
                        cx(r['end']), 'replay'), float.fromhex(r['t0']), float.fromhex(r['t1']))
